@@ -960,3 +960,31 @@ func checkSpecConstantNames(p *core.Prog, r *core.Report, rule string) int {
 	r.Tables["spec-constants"] = pairs
 	return nSpec
 }
+
+// constFlagDecidersAny: the branch tests (the negation of) a phi of boolean constants: the nearest branches above the
+// edges that carry a constant, whichever way they send control; nil when the condition is not such a flag.
+func constFlagDecidersAny(ifi *ssa.If) []*ssa.If {
+	var out []*ssa.If
+	seen := map[*ssa.If]bool{}
+	found := false
+	for edge := 0; edge < 2; edge++ {
+		ups := constFlagDeciders(ifi, edge)
+		if ups == nil {
+			return nil
+		}
+		found = true
+		for _, u := range ups {
+			if !seen[u.ifi] {
+				seen[u.ifi] = true
+				out = append(out, u.ifi)
+			}
+		}
+	}
+	if !found {
+		return nil
+	}
+	if out == nil {
+		out = []*ssa.If{}
+	}
+	return out
+}
